@@ -13,5 +13,5 @@ Extraction "model.ml"
   new_iter iter_next iter_reset iter_set_dir iter_all miter_next_validity miter_seek flat_next_valid flat_next_invalid
   new_mult mult_next mult_reset hash_ints
   get_t is_materializable requires_iterator is_cm is_nc is_tr
-  guard_op flag_soundb
-  step_model step_spec obs_model obs_spec ntens_model ntens_spec empty_store empty_sstate.
+  guard_op flag_soundb meta_inv_obs guard_slice
+  step_model step_spec obs_model inv_model obs_spec ntens_model ntens_spec empty_store empty_sstate.
